@@ -226,7 +226,8 @@ def main():
     for l in lines: print(l)
     print(f"{pid}: tier={tier} obligations={len(own)} discharged={len(discharged)} (+{len(obs) - len(own)} supporting) bounded_evaluations={cov.get('evaluations')} level={level} wall={ev['wall_s']}s")
     nothing = not own and (B is None or B.get("crashed"))
-    sys.exit(1 if lines else (2 if nothing else 0))
+    crashed = bool(B and B.get("crashed"))          # the stand-in could not run at all (harness bug, or the tree does not even import): never reported as "held"
+    sys.exit(1 if lines else (2 if (nothing or crashed) else 0))
 
 def z3ver():
     import z3; return z3.get_version_string()
